@@ -378,6 +378,19 @@ func c01(run *ev.Run, tier string) {
 		mu.Unlock()
 	})
 	c01Directed(run, &st)
+	// a build that failed half-way leaves nothing behind in the payload of the next one
+	afterFailedBuilds(run, "C01", func(f string, raw []byte, p *dec.Package) []problem {
+		var ps []problem
+		for pth, size := range map[string]int64{"/opt/af/a.bin": 3300, "/opt/af/b.bin": 6000, "/opt/af/c.bin": 6} {
+			if e := p.Find(pth); e == nil || e.Kind != "file" || int64(len(e.Data)) != size {
+				ps = append(ps, problem{"payload-entry", pth + " missing or of another size"})
+			}
+		}
+		if len(p.Entries) > 6 {
+			ps = append(ps, problem{"payload-entry", fmt.Sprintf("%d entries, configured 4 plus implied directories", len(p.Entries))})
+		}
+		return ps
+	})
 	// the command line tool with the packager guessed from the target's extension
 	// ships what the configuration (its per-format overrides included) lists
 	if bin := nfpmBin(run); bin != "" {
@@ -498,6 +511,8 @@ func c01Directed(run *ev.Run, st *cmpStats) {
 		{"entry-inside-tree-destination-listed-last", []*gen.Content{tree("/opt/t"), file("/opt/t/sub/deep/extra.txt")}},
 		{"two-entries-inside-tree-destination", []*gen.Content{file("/opt/t/extra0.txt"), file("/opt/t/sub/deep/extra.txt"), tree("/opt/t")}},
 		{"backslashes-in-tree-names", []*gen.Content{bsTree}},
+		// a destination whose last byte is a line break or a carriage return: part of the name
+		{"destination-ending-in-a-line-break", []*gen.Content{file("/opt/d/report\n"), file("/opt/d/cr-at-the-end\r"), file("/opt/d/plain.txt")}},
 		// a source whose permission bits are all cleared (readable for root only):
 		// the mode is the source mode, in every format
 		{"source-without-permission-bits", []*gen.Content{
